@@ -57,7 +57,11 @@ func cmdCheck(args []string) int {
 	pkgs := fs.String("pkgs", "./...", "")
 	verbose := fs.Bool("v", false, "")
 	noReplay := fs.Bool("noreplay", false, "skip counterexample replay")
+	outRoot := fs.String("outroot", "", "write out/, replays/, evidence/ under this directory instead of --verif (self-tests)")
 	fs.Parse(args)
+	if *outRoot == "" {
+		*outRoot = *verif
+	}
 	if *prop == "" {
 		fmt.Fprintln(os.Stderr, "check: --prop required")
 		return 2
@@ -67,13 +71,13 @@ func cmdCheck(args []string) int {
 	}
 	seed, _ := strconv.Atoi(os.Getenv("VERIF_SEED"))
 	t0 := time.Now()
-	outDir := filepath.Join(*verif, "out", *prop)
+	outDir := filepath.Join(*outRoot, "out", *prop)
 	os.RemoveAll(outDir)
 	os.MkdirAll(outDir, 0o755)
-	replayDir := filepath.Join(*verif, "replays", *prop)
+	replayDir := filepath.Join(*outRoot, "replays", *prop)
 	os.RemoveAll(replayDir)
 	os.MkdirAll(replayDir, 0o755)
-	evidencePath := filepath.Join(*verif, "evidence", *prop+".json")
+	evidencePath := filepath.Join(*outRoot, "evidence", *prop+".json")
 	os.MkdirAll(filepath.Dir(evidencePath), 0o755)
 
 	violations := 0
@@ -130,6 +134,19 @@ func cmdCheck(args []string) int {
 		return nil
 	}
 
+	// audited dead code: return paths that the assumptions legitimately refute (e.g. error handling
+	// after a write into an in-memory buffer that cannot fail)
+	deadPaths := map[string]string{}
+	var deadNoted []string
+	if data, err := os.ReadFile(filepath.Join(*verif, "dead_paths.json")); err == nil {
+		var dl []struct{ Path, Reason string }
+		if err := json.Unmarshal(data, &dl); err != nil {
+			engineFail("dead_paths", err.Error())
+		}
+		for _, d := range dl {
+			deadPaths[d.Path] = d.Reason
+		}
+	}
 	// cone: roots tagged with the property, closed under used /repo contracts
 	var queue []string
 	inCone := map[string]bool{}
@@ -249,6 +266,11 @@ func cmdCheck(args []string) int {
 			continue
 		}
 		full := shortFn(o.Fn) + "/" + o.Name
+		if o.ExpectSat && deadPaths[full] != "" {
+			deadNoted = append(deadNoted, full+": "+deadPaths[full])
+			discharged++
+			continue
+		}
 		if kf := isKnown(full); kf != nil {
 			fmt.Printf("KNOWN-FINDING: property=%s %s %s\n", *prop, full, kf.What)
 			knownHit = append(knownHit, full)
@@ -349,7 +371,7 @@ func cmdCheck(args []string) int {
 	extra := map[string]interface{}{
 		"functions_under_contract": functions, "obligations_by_backend": bySolver, "solver_seconds": solverSecs,
 		"load_seconds": loadSecs, "other_properties_failing": otherFailing, "known_findings_hit": knownHit,
-		"all_obligations": len(allObls), "engine": "govc (go/ssa naive form -> SMT-LIB; z3-new 5.1, z3 4.8.12, cvc5 1.0)",
+		"all_obligations": len(allObls), "audited_dead_paths": deadNoted, "engine": "govc (go/ssa naive form -> SMT-LIB; z3-new 5.1, z3 4.8.12, cvc5 1.0)",
 	}
 	bounded := runBoundedStandins(*prop, *tier, *repo, *verif, seed, violate, writeReplay)
 	if bounded != nil {
@@ -460,7 +482,7 @@ func (e *Engine) implObligations(prop string) ([]*Obligation, []string, []string
 	sort.Strings(keys)
 	for _, k := range keys {
 		ict := e.ifaceContracts[k]
-		if ict.IsTrustedFile || !hasTag(ict.Tags, prop) {
+		if ict.IsTrustedFile || ict.Trusted || !hasTag(ict.Tags, prop) {
 			continue
 		}
 		impls := e.implementers(ict)
